@@ -37,6 +37,8 @@ pub struct VerifSnapshot<T> {
     pub custom_broadcasts: Vec<(usize, Vec<u8>)>,
     /// Capacity of the reusable send buffer
     pub send_buf_capacity: usize,
+    /// The configuration currently in force
+    pub config: crate::Config,
 }
 
 impl<T, C, RNG, B> Foca<T, C, RNG, B>
@@ -64,6 +66,7 @@ where
             updates: self.updates.verif_entries(),
             custom_broadcasts: self.custom_broadcasts.verif_entries(),
             send_buf_capacity: self.send_buf.capacity(),
+            config: self.config.clone(),
         }
     }
 }
